@@ -488,6 +488,8 @@ VIS_SIZES = {
     "tiny": "with width 0.2, with length 0.2, with height 0.2",
     "rand": "with width Range(0.4, 2.0)",
     "wide": "with width 2, with length 0.6",
+    # a thin plate whose corner points along the axes: its circumradius is actually reached
+    "flat45": "with width 1, with length 1, with height 0.02, facing 45 deg",
 }
 VIS_PLACES = {
     "in": "in R",
@@ -583,6 +585,7 @@ def vis_programs():
     add(vis("requireVisible", "vd0.8", size="wide", place="onb", quick=True))
     add(vis("visible", "vd0.3", size="tiny", place="offs", quick=True))
     add(vis("visible", "vd0.3", size="wide", quick=True))
+    add(vis("visible", "vd0.8", size="flat45", quick=True))
     add(vis("visible-from-obs", "vd2", observer="random", quick=True))
     add(vis_cyclic(quick=True))
     add(vis3d("vd0.3", "tiny", quick=True))
